@@ -404,6 +404,9 @@ func runSlice(c sliceCase, r *pb.Rec) error {
 		model[id] = init[i]
 	}
 	s := heapz.FromSlice(init, less)
+	if len(init) == 0 && c.Order%2 == 0 {
+		s = heapz.NewSlice[val](len(c.Ops)%5, less) // the other constructor: empty, with some spare capacity
+	}
 	same := func(where string) error {
 		if s.Len() != len(model) || len(s.Values) != len(model) {
 			return fmt.Errorf("%s: Len = %d, model %d", where, s.Len(), len(model))
